@@ -29,6 +29,7 @@ func init() {
 		Rule{ID: "R14f", Doc: "select arm reports its own context's cause", Floor: 8, Run: r14f},
 		Rule{ID: "R14g", Doc: "lock pairing", Floor: 25, Run: r14g},
 		Rule{ID: "R13d", Doc: "gnet partial-read state invariants (a mis-framed query gets no response; shared with C13)", Floor: 10, Run: r13d},
+		Rule{ID: "R09c", Doc: "stream responses are packed under the 65535 limit so that the length prefix is the frame length (shared with C09)", Floor: 6, Run: r09c},
 	)
 }
 
@@ -331,7 +332,7 @@ func r03c(c *core.Ctx) {
 							if pred.Succs[0] == p.Block() {
 								collect(iff.Cond, d+1)
 							} else {
-								atoms["!"+core.Expr(iff.Cond)] = true
+								atoms[canonAtom(iff.Cond, true)] = true
 							}
 						}
 					}
@@ -341,10 +342,10 @@ func r03c(c *core.Ctx) {
 			}
 			return
 		}
-		atoms[core.Expr(v)] = true
+		atoms[canonAtom(v, false)] = true
 	}
 	collect(cond, 0)
-	wantAtoms := []string{"hdr.Response", "!hdr.RecursionDesired", "(hdr.OpCode != 0)", "(len(m.Questions) != 1)"}
+	wantAtoms := []string{"hdr.Response", "!hdr.RecursionDesired", "!(0 == hdr.OpCode)", "!(1 == len(m.Questions))"}
 	okAtoms := len(atoms) == len(wantAtoms)
 	for _, w := range wantAtoms {
 		found := false
@@ -544,6 +545,32 @@ func r03e(c *core.Ctx) {
 			}
 		}
 	}
+}
+
+// canonAtom renders a boolean atom in canonical form: negations are folded into one leading "!", comparisons are
+// normalised by core.CmpOf ("(a != b)", "!(a == b)" and "(b != a)" all become "!(a == b)" with sorted operands).
+func canonAtom(v ssa.Value, negated bool) string {
+	if cm, ok := core.CmpOf(v); ok {
+		neg := cm.Neg != negated
+		s := "(" + cm.X + " " + cm.Op + " " + cm.Y + ")"
+		if neg {
+			return "!" + s
+		}
+		return s
+	}
+	for {
+		u, ok := v.(*ssa.UnOp)
+		if ok && u.Op == token.NOT {
+			v = u.X
+			negated = !negated
+			continue
+		}
+		break
+	}
+	if negated {
+		return "!" + core.Expr(v)
+	}
+	return core.Expr(v)
 }
 
 // ---- R03f: result contract ----
